@@ -583,4 +583,6 @@ RULES = [
     ("C11.R4", "only present, complete phases enter blocks", r4),
     ("C11.R5", "per-chromosome switch-error records are collected afresh for each chromosome", r5),
 ]
-FLOORS = {"C11.R1": 12, "C11.R2": 2, "C11.R3": 2, "C11.R4": 2, "C11.R5": 1}
+# instance floors: about 60% of the instances confirmed by hand on the reference tree -- a rule that suddenly matches far fewer
+# sites fails the run (exit 2); a clean-up that merges two sites into one does not
+FLOORS = {"C11.R1": 7, "C11.R2": 1, "C11.R3": 1, "C11.R4": 1, "C11.R5": 1}
